@@ -151,6 +151,26 @@ def _run(case, out, rig, server, cfg, variant, phone):
             if rig.current is not None and rig.current.up:
                 rig.current.inbox.put(("close",))
             rig.run()
+        elif cut == "rejected_trailing":
+            # the server's reply fails authentication and the same read carries one more frame behind it; the attempt is
+            # reported as failed, and nothing of it may be left over for the next attempt
+            rig.post("connect")
+            rig.run()
+            server.corrupt_hello = True
+            try:
+                server.feed(rig.take_client_bytes())
+            except TR.ProtocolViolation as e:
+                out.fail("handshake", "prefix:server_rejects_client_bytes", {"problem": str(e)})
+                return out
+            finally:
+                server.corrupt_hello = False
+            n_extra = 1 + (case.get("after_server", 0) + k) % 3
+            o = server.take_out() + b"".join(bytes([0, 0, 8 + i]) + bytes([0xc0 + i]) * (8 + i) for i in range(n_extra))
+            rig.deliver(o)
+            rig.run()
+            if rig.current is not None and rig.current.up:
+                rig.current.inbox.put(("close",))
+            rig.run()
         elif cut == "after":
             probs = rig.login(chunker)
             if probs or server.state != "transport":
@@ -385,7 +405,7 @@ def case_strategy():
             "coalesced": draw(st.integers(0, 3)),
             "after_server": draw(st.integers(0, 4)),
             "after_client": draw(st.integers(0, 4)),
-            "prefix": draw(st.lists(st.sampled_from(["before", "during", "during_partial", "after", "after_inside_delivery"]), min_size=0, max_size=2)),
+            "prefix": draw(st.lists(st.sampled_from(["before", "during", "during_partial", "after", "after_inside_delivery", "rejected_trailing"]), min_size=0, max_size=2)),
             "corrupt": draw(st.sampled_from([False, False, False, False, True])),
             "real_profile": draw(st.sampled_from([False, False, True])),
             "too_large": draw(st.sampled_from([0, 0, 0, 0, 2 ** 24 - 16, 2 ** 24 - 15, 2 ** 24])),
@@ -401,7 +421,7 @@ def case_strategy():
 def _enum_basic():
     for variant in ("XX", "IK", "IK_stale"):
         for chunks in ([], [1], [7, 40]):
-            for prefix in ([], ["before"], ["during"], ["during_partial"], ["after"], ["after_inside_delivery"]):
+            for prefix in ([], ["before"], ["during"], ["during_partial"], ["after"], ["after_inside_delivery"], ["rejected_trailing"]):
                 yield {"sub": "login", "variant": variant, "phone": "4915112345", "passive": variant == "XX", "pushname": None, "edge": None,
                        "chunks": chunks, "coalesced": 2, "after_server": 2, "after_client": 2, "prefix": prefix, "corrupt": False, "choices": []}
         yield {"sub": "login", "variant": variant, "phone": "12025550100", "passive": False, "pushname": "Zoë", "edge": "0802100118",
